@@ -1086,7 +1086,15 @@ func structuralFrom1(prog *load.Program, info *types.Info, fd *ast.FuncDecl, a a
 			continue
 		case *ast.CallExpr:
 			sel, ok := ast.Unparen(x.Fun).(*ast.SelectorExpr)
-			if !ok || !structuralAccessors[sel.Sel.Name] {
+			if !ok {
+				// at(i) where at is a function-typed parameter of a local closure: what every call of the
+				// closure hands in there gives strict components only
+				if fid, isID := ast.Unparen(x.Fun).(*ast.Ident); isID && prog != nil {
+					return callbackGivesComponents(prog, info, fd, fid, depth)
+				}
+				return false
+			}
+			if !structuralAccessors[sel.Sel.Name] {
 				return false
 			}
 			n++
@@ -1243,6 +1251,111 @@ func structuralFrom1(prog *load.Program, info *types.Info, fd *ast.FuncDecl, a a
 			return false
 		}
 	}
+}
+
+// callbackGivesComponents: fid names a function-typed parameter of a function literal that is bound once
+// to a local of fd; every call of that local passes, in that position, a method value of a structural
+// accessor on a structural receiver (t.TypeArgs().At, t.EmbeddedType) or a function literal all of whose
+// returns are strict components (func(i int) types.Type { return t.Field(i).Type() }).
+func callbackGivesComponents(prog *load.Program, info *types.Info, fd *ast.FuncDecl, fid *ast.Ident, depth int) bool {
+	v := info.ObjectOf(fid)
+	if v == nil {
+		return false
+	}
+	var lit *ast.FuncLit
+	pi := -1
+	ast.Inspect(fd, func(nn ast.Node) bool {
+		fl, ok := nn.(*ast.FuncLit)
+		if !ok || fl.Type.Params == nil {
+			return true
+		}
+		k := 0
+		for _, f := range fl.Type.Params.List {
+			for _, nm := range f.Names {
+				if info.Defs[nm] == v {
+					lit, pi = fl, k
+				}
+				k++
+			}
+		}
+		return true
+	})
+	if lit == nil {
+		return false
+	}
+	var holder types.Object
+	nbind := 0
+	ast.Inspect(fd, func(nn ast.Node) bool {
+		if as, ok := nn.(*ast.AssignStmt); ok && len(as.Lhs) == len(as.Rhs) {
+			for i, r := range as.Rhs {
+				if lid, ok := ast.Unparen(as.Lhs[i]).(*ast.Ident); ok {
+					if ast.Unparen(r) == ast.Expr(lit) {
+						holder = info.ObjectOf(lid)
+					}
+				}
+			}
+		}
+		return true
+	})
+	if holder == nil {
+		return false
+	}
+	ast.Inspect(fd, func(nn ast.Node) bool {
+		if as, ok := nn.(*ast.AssignStmt); ok {
+			for _, l := range as.Lhs {
+				if lid, ok := ast.Unparen(l).(*ast.Ident); ok && info.ObjectOf(lid) == holder {
+					nbind++
+				}
+			}
+		}
+		return true
+	})
+	if nbind != 1 {
+		return false
+	}
+	calls, good := 0, 0
+	uses := 0
+	ast.Inspect(fd, func(nn ast.Node) bool {
+		if id, ok := nn.(*ast.Ident); ok && info.Uses[id] == holder {
+			uses++
+		}
+		call, ok := nn.(*ast.CallExpr)
+		if !ok {
+			return true
+		}
+		cid, ok := ast.Unparen(call.Fun).(*ast.Ident)
+		if !ok || info.ObjectOf(cid) != holder || pi >= len(call.Args) {
+			return true
+		}
+		calls++
+		switch a := ast.Unparen(call.Args[pi]).(type) {
+		case *ast.SelectorExpr:
+			// a method value of a structural accessor
+			if _, isFn := info.ObjectOf(a.Sel).(*types.Func); isFn && structuralAccessors[a.Sel.Name] && structuralFrom(prog, info, fd, a.X, false, depth+1) {
+				good++
+			}
+		case *ast.FuncLit:
+			okAll, n := true, 0
+			ast.Inspect(a.Body, func(m ast.Node) bool {
+				if _, isLit := m.(*ast.FuncLit); isLit {
+					return false
+				}
+				if rs, ok := m.(*ast.ReturnStmt); ok {
+					n++
+					if len(rs.Results) != 1 || !structuralFrom(prog, info, fd, rs.Results[0], true, depth+1) {
+						okAll = false
+					}
+				}
+				return true
+			})
+			if okAll && n > 0 {
+				good++
+			}
+		}
+		return true
+	})
+	// the closure is only ever called (not handed on as a value)
+	return calls > 0 && calls == good && uses == calls
 }
 
 func isSwitchSymbol(info *types.Info, fd *ast.FuncDecl, v types.Object) bool {
